@@ -35,13 +35,15 @@ def main():
         if "checks" not in e:
             continue
         meta = json.load(open(os.path.join(VERIF, "seeded", name, "meta.json")))
-        c = [k for k, v in e["checks"].items() if v["caught"]]
+        c = ["%s%s" % (k, " (thorough tier)" if v.get("tier") == "thorough" else "") for k, v in e["checks"].items() if v["caught"]]
         ms = ["%s (exit %s)" % (k, v["exit"]) for k, v in e["checks"].items() if not v["caught"]]
+        if meta.get("outside_statement") and not c:
+            ms = ["not claimed: " + meta["outside_statement"][:110].replace("|", "/")]
         n += 1
         caught += bool(c)
         needs = re.sub(r"\s+", " ", str(meta.get("summary") or meta.get("needs") or ""))[:150].replace("|", "/")
         out.append("| %s | %s | %s | %s |" % (name, needs, ", ".join(c) or "-", ", ".join(ms) or "-"))
-    out += ["", "%d of %d seeded changes are caught by at least one listed check in the quick tier." % (caught, n), ""]
+    out += ["", "%d of %d seeded changes are caught by at least one listed check (quick tier unless marked); the others are the changes recorded as outside the statements." % (caught, n), ""]
     out += ["### 10.3 What the quick tier observed on the unchanged tree (from `evidence/*.json` at the time of writing)", "",
             "| check | evaluations | distinct non-trivial | wall s | shards | deciding monitors (count) |", "|---|---|---|---|---|---|"]
     import glob
